@@ -446,7 +446,11 @@ impl<B> Flow<B, Await100> {
             flow.inner.call.analyze_request()?;
             Ok(Await100Result::SendBody(flow))
         } else {
-            Ok(Await100Result::RecvResponse(Flow::wrap(self.inner)))
+            // The server answered with something else than 100-continue. The body
+            // is not sent and we go straight to receiving that response.
+            let mut inner = self.inner;
+            inner.call.convert_to_recv_response_skip_body();
+            Ok(Await100Result::RecvResponse(Flow::wrap(inner)))
         }
     }
 }
